@@ -69,7 +69,7 @@ def run (ctx : Algo.Ctx) (op : String) (args impl : List String) : Outcome :=
     let stale := (List.zip published fresh).any fun (a, b) => a != b
     { model,
       spec := match badFinal with
-        | ((r, _), _) :: _ => specFail s!"[C08] after input had ended a request (query {showNatList (queryOf r)}, {r.count} items) was answered with something other than a fresh filter of the loaded input"
+        | ((r, _), _) :: _ => specFail s!"[C08,C04] after input had ended a request (query {showNatList (queryOf r)}, {r.count} items) was answered with something other than a fresh filter of the loaded input"
         | [] => if implL.length != rs.length then specFail "[C08] a request was never answered" else specOk,
       tags := ["hist", "nt"] ++ (if stale then ["stale-transient"] else []) ++
         (if rs.any (fun x => x.1.rev == 1) then ["reload"] else []) ++
